@@ -42,22 +42,33 @@ func workers() int {
 	return w
 }
 
-func TestCheck(t *testing.T) {
-	run := vkit.New("C20", "main", "exploration")
+func TestCheck(t *testing.T) { check(t, "main", [2]int{48, 1000}, [2]int{200, 6000}) }
+
+// TestRace is the same check at a smaller scale in a -race build (part "race"): the rig is
+// concurrent (subscriber run loop, discovery, servers, stream handlers); the driver counts race
+// reports whose both stacks contain go-f3 frames.
+func TestRace(t *testing.T) { check(t, "race", [2]int{6, 60}, [2]int{30, 400}) }
+
+func check(t *testing.T, part string, nProgress, nRun [2]int) {
+	run := vkit.New("C20", part, "exploration")
 	run.SetRule("progress: one seeded population of 1-6 real certexchange servers (healthy/lagging/failing/flaky/Byzantine) and 30 accessor-driven polling rounds with seeded production (0,1,2,3,5-8,300 certificates), local puts between and during rounds and injected latency; " +
 		"run: one seeded (pattern, interval settings, production interval T, population of 1-10 servers, latency class, local-put rate) scenario of the real Subscriber.run on the mock clock; " +
-		"distinct = distinct (pattern, settings, T, population, latency class) descriptions; non-trivial = at least 10 polling rounds with requests were observed")
+		"distinct = distinct (pattern, settings, T, population, latency class) descriptions; non-trivial = at least 10 polling rounds with requests were observed (run) / rounds with and without fetched certificates were both seen (progress)")
 	run.Assume("signatures are the harness's deterministic stand-in scheme (vsig)",
 		"the mock clock is only ever advanced to an armed timer deadline (WaitForAllTimers) or by an injected latency while the subscriber is blocked inside that request, so request stamps are exact",
 		"every scenario contains at least one healthy server, hence every polling round without local progress issues at least one request and is visible at the servers",
 		"the predicted interval of a round is obtained from the real predictor (accessor) fed with the value the progress oracle saw polling rounds report for that many fetched certificates",
 		"real-time yields only decide whether a scenario is stuck (counted, inconclusive), never a verdict")
 
-	feed := progressPhase(run)
-	runPhase(run, feed)
+	feed := progressPhase(run, run.N(nProgress[0], nProgress[1]))
+	runPhase(run, feed, run.N(nRun[0], nRun[1]))
 
-	if run.Counter("progress_values_checked") < 50 || run.Counter("polling_rounds_observed") < 200 || run.Counter("waits_checked") < 50 {
-		if run.Case < 0 {
+	if run.Case < 0 {
+		sc := run.Counter("scenarios")
+		if run.Counter("progress_values_checked") < 20*int64(run.N(nProgress[0], nProgress[1])) ||
+			run.Counter("polling_rounds_observed") < 20*int64(run.N(nRun[0], nRun[1])) ||
+			run.Counter("waits_checked") < 10*int64(run.N(nRun[0], nRun[1])) ||
+			run.Counter("scenarios_stuck_inconclusive")*5 > sc {
 			run.Inconclusive("too-few-events")
 		}
 	}
@@ -176,9 +187,8 @@ func u64s(v uint64) string {
 	return fmt.Sprint(v)
 }
 
-func progressPhase(run *vkit.Run) *feedModel {
+func progressPhase(run *vkit.Run, n int) *feedModel {
 	feed := &feedModel{table: map[uint64]uint64{}}
-	n := run.N(24, 500)
 	body := func(i int) {
 		seed := run.SubSeed(int64(i))
 		rng := rand.New(rand.NewSource(seed))
@@ -271,6 +281,7 @@ func progressPhase(run *vkit.Run) *feedModel {
 				}
 			}); err != nil {
 				run.Count("scenarios_stuck_inconclusive", 1)
+				fmt.Printf("STUCK progress case=%d round=%d requests=%d %s: %v\n", i, round, len(r.reqs), describeServers(specs), err)
 				return
 			}
 			if perr != nil {
@@ -320,6 +331,9 @@ func progressPhase(run *vkit.Run) *feedModel {
 	if run.Case >= 0 {
 		if int(run.Case) < n {
 			body(int(run.Case))
+		} else {
+			// replaying a run scenario: learn what polling rounds report from a few populations
+			vkit.Parallel(min(n, 4), workers(), body)
 		}
 		return feed
 	}
@@ -418,6 +432,21 @@ type roundRec struct {
 
 // execute runs one scenario and returns the visible polling rounds.
 func execute(sc scenario) (rounds []roundRec, nreq int, err error) {
+	// libp2p's identify occasionally answers before its protocol snapshot contains the handler
+	// registered just before (mocknet, seen in ~0.5% of set-ups); the peer is then never
+	// discovered. That is rig set-up, not the subject: set the same scenario up again.
+	for attempt := 0; attempt < 4; attempt++ {
+		rounds, nreq, err = executeOnce(sc)
+		if !errors.Is(err, errSetupIdentify) {
+			break
+		}
+	}
+	return rounds, nreq, err
+}
+
+var errSetupIdentify = fmt.Errorf("%w: identify did not complete", errStuck)
+
+func executeOnce(sc scenario) (rounds []roundRec, nreq int, err error) {
 	r, err := newRig(sc.Seed, sc.Servers)
 	if err != nil {
 		return nil, 0, fmt.Errorf("setup: %w", err)
@@ -434,14 +463,14 @@ func execute(sc scenario) (rounds []roundRec, nreq int, err error) {
 		}
 	}
 	proto := certexchange.FetchProtocolName(netName)
-	deadline := time.Now().Add(10 * time.Second)
-	for _, s := range r.servers {
+	deadline := time.Now().Add(4 * time.Second)
+	for si, s := range r.servers {
 		for {
 			if p, err := r.clientHost.Peerstore().FirstSupportedProtocol(s.host.ID(), proto); err == nil && p == proto {
 				break
 			}
 			if time.Now().After(deadline) {
-				return nil, 0, errStuck
+				return nil, 0, fmt.Errorf("%w for server %d (%s)", errSetupIdentify, si, s.spec.Kind)
 			}
 			time.Sleep(time.Millisecond)
 		}
@@ -539,8 +568,7 @@ func meanSpacing(rounds []roundRec, from, to int) time.Duration { // spacings be
 	return (rounds[to].PollTime - rounds[from].PollTime) / time.Duration(to-from)
 }
 
-func runPhase(run *vkit.Run, feed *feedModel) {
-	n := run.N(60, 3000)
+func runPhase(run *vkit.Run, feed *feedModel, n int) {
 	note := feed.note()
 	body := func(i int) {
 		sc := genScenario(i, run.SubSeed(int64(1_000_000+i)))
@@ -553,6 +581,7 @@ func runPhase(run *vkit.Run, feed *feedModel) {
 		if err != nil {
 			if errors.Is(err, errStuck) {
 				run.Count("scenarios_stuck_inconclusive", 1)
+				fmt.Printf("STUCK run case=%d rounds=%d requests=%d %s: %v\n", 1_000_000+i, len(rounds), nreq, sc.desc(), err)
 			} else {
 				run.Count("harness_errors", 1)
 			}
@@ -685,11 +714,12 @@ func checkCadence(run *vkit.Run, sc scenario, rounds []roundRec, note string, wi
 			mean := meanSpacing(rounds, lo, hi)
 			allMin, allMax := true, true
 			for j := lo; j < hi; j++ {
-				s := rounds[j+1].PollTime - rounds[j].PollTime
+				// spacing less the time the round's own requests took = what the timer contributed
+				s := rounds[j+1].PollTime - rounds[j].PollTime - (rounds[j].End - rounds[j].PollTime)
 				if s > sc.Min+sc.Min/2 {
 					allMin = false
 				}
-				if s < sc.Max {
+				if s < sc.Max-(rounds[j].End-rounds[j].PollTime) {
 					allMax = false
 				}
 			}
@@ -698,15 +728,18 @@ func checkCadence(run *vkit.Run, sc scenario, rounds []roundRec, note string, wi
 			ratio := float64(mean) / float64(ph.T)
 			switch {
 			case inside && allMin:
-				run.Violation("cadence: steady production of one certificate per T (min<T<max): steady-state poll spacing collapsed to the minimum interval (every one of the last 20 spacings <= 1.5*min)"+note,
+				run.Violation("cadence: steady production of one certificate per T (min<T<max): steady-state poll spacing collapsed to the minimum interval (every one of the last 20 waits <= 1.5*min)"+note,
 					wit(map[string]any{"phase_index": p, "mean_spacing_ns": mean, "T_ns": ph.T, "ratio": ratio}))
 			case inside && allMax:
 				run.Violation("cadence: steady production of one certificate per T (min<T<max): steady-state poll spacing pinned at the maximum interval"+note,
 					wit(map[string]any{"phase_index": p, "mean_spacing_ns": mean, "T_ns": ph.T, "ratio": ratio}))
+			case !(sc.Min <= ph.T && ph.T <= sc.Max):
+				// production interval outside what the settings allow the subscriber to follow
+				run.Count("cadence_steady_band_not_applicable_T_outside_min_max", 1)
 			case ratio < 0.8:
 				run.Violation("cadence: steady production of one certificate per T: steady-state poll spacing below 0.8*T"+note,
 					wit(map[string]any{"phase_index": p, "mean_spacing_ns": mean, "T_ns": ph.T, "ratio": ratio}))
-			case ratio > 1.6 && ph.T >= sc.Min:
+			case ratio > 1.6:
 				run.Violation("cadence: steady production of one certificate per T: steady-state poll spacing above 1.6*T"+note,
 					wit(map[string]any{"phase_index": p, "mean_spacing_ns": mean, "T_ns": ph.T, "ratio": ratio}))
 			}
